@@ -113,7 +113,8 @@ def materialise(d):
     if form == "emptyList":
         return []
     if form == "listArr":
-        return [np.array([num(v, dt) for v in r], dtype=np_dtype(dt)) for r in d["rows"]]
+        dts = d.get("row_dtypes") or [dt] * len(d["rows"])
+        return [np.array([num(v, rd) for v in r], dtype=np_dtype(rd)) for r, rd in zip(d["rows"], dts)]
     if form == "listList":
         if d.get("triples"):
             return [[int(fl(r[0])), int(fl(r[1])), num(r[2], dt)] if len(r) == 3 else [num(v, dt) for v in r]
@@ -155,7 +156,11 @@ def observe(f):
         return None, {"error": core.err_name(e)}
     if not isinstance(t, Table):
         return None, {"error": "Other"}
-    return t, {"ok": core.table_obs(t)}
+    try:
+        return t, {"ok": core.table_obs(t)}
+    except Exception as e:  # noqa
+        # a produced table that cannot even be read exactly (non-finite cell, broken matrix): no usable table
+        return None, {"error": "Unobservable:" + type(e).__name__}
 
 
 def build_args(inp, variant=None):
@@ -175,15 +180,34 @@ def build_args(inp, variant=None):
     if v.get("md") == "tuple":
         omd = None if omd is None else tuple(omd)
         smd = None if smd is None else tuple(smd)
+    elif v.get("md") == "ndarray":
+        def as_obj(md):
+            if md is None:
+                return None
+            a = np.empty(len(md), dtype=object)
+            for i, e in enumerate(md):
+                a[i] = e
+            return a
+        omd, smd = as_obj(omd), as_obj(smd)
+    if v.get("share"):
+        # ONE mutable object handed over for both axes where the two arguments are equal anyway
+        if list(inp["obs"]) == list(inp["samp"]):
+            samp = obs
+        if inp.get("omd") is not None and inp.get("omd") == inp.get("smd"):
+            smd = omd
+    # flags that are truthy / falsy without being True / False
+    flag = {"np": (np.True_, np.False_), "int": (1, 0)}.get(v.get("flag"), (True, False))
     kw = {}
     if inp.get("dense"):
-        kw["input_is_dense"] = True
+        kw["input_is_dense"] = flag[0]
     elif v.get("dense_false"):
-        kw["input_is_dense"] = False
+        kw["input_is_dense"] = flag[1]
     if v.get("kw"):
+        gmd = None if v["kw"] == 1 else {"tree": ("newick", "(a:0.1,b:0.2);")}
         kw.update(table_id="tid-%s" % v["kw"], type=None, create_date="2020-01-02T03:04:05",
-                  generated_by="verif", observation_group_metadata=None, sample_group_metadata=None, validate=True)
-    return {"data": data, "obs": obs, "samp": samp, "omd": omd, "smd": smd, "kw": kw, "md_kw": bool(v.get("md_kw"))}
+                  generated_by="verif", observation_group_metadata=gmd, sample_group_metadata=gmd, validate=flag[0])
+    return {"data": data, "obs": obs, "samp": samp, "omd": omd, "smd": smd, "kw": kw, "md_kw": bool(v.get("md_kw")),
+            "all_kw": bool(v.get("all_kw"))}
 
 
 def values_of(x):
@@ -237,6 +261,9 @@ class profile_ctx:
 
 def call_table(args):
     from biom import Table
+    if args.get("all_kw"):
+        return Table(data=args["data"], sample_ids=args["samp"], observation_ids=args["obs"],
+                     sample_metadata=args["smd"], observation_metadata=args["omd"], **args["kw"])
     if args["md_kw"]:
         return Table(args["data"], args["obs"], args["samp"], observation_metadata=args["omd"],
                      sample_metadata=args["smd"], **args["kw"])
@@ -337,7 +364,12 @@ def apply_inplace(t, op):
 
 def look(t, obs, samp, what):
     """one look at a table: by position (IDs, matrix) and cell by cell through its own ID lookups"""
-    st = {"what": what, "table": core.table_obs(t)}
+    try:
+        st = {"what": what, "table": core.table_obs(t)}
+    except Exception:  # noqa
+        # unreadable (e.g. a non-finite cell): shown as a table that holds nothing of what was described
+        return {"what": what + ":unobservable", "table": {"obs": [], "samp": [], "rows": [], "omd": None, "smd": None,
+                                                          "type": None}, "byid": None}
     try:
         st["byid"] = [[core.frac(t.get_value_by_ids(o, s)) for s in samp] for o in obs]
     except Exception:  # noqa
@@ -538,16 +570,43 @@ def encodings(rng, G, exact, full=True):
         for d in ds:
             rng.shuffle(d)
         out.append(({"form": "listDict", "ds": ds, "sub": "cols"}, False))
-    # list of sparse row vectors, and of row blocks
+    # lists whose elements differ in layout / dtype: whatever the code learns from element 0 (the dispatch, a fast
+    # path guard) need not hold for the others.  dok first is left out: dok_matrix is a dict subclass, so such a
+    # list is dispatched as a list of dicts (heterogeneous lists are outside the domain)
+    def row_dtype(i, r):
+        ok_int = all(v.denominator == 1 and abs(v) < 2 ** 40 for v in G[i])
+        ok_bool = all(v in (0, 1) for v in G[i])
+        c = [None] + (["int", "int32"] if ok_int else []) + (["bool"] if ok_bool else []) + \
+            (["float32"] if all(abs(v) < 2 ** 20 and v.denominator in (1, 2, 4) for v in G[i]) else [])
+        return rng.choice(c)
+
+    def sparse_row(i, layout):
+        e = {"nR": 1, "nC": m, "rows": [rows[i]], "layout": layout}
+        dtp = row_dtype(i, rows[i])
+        if dtp and rng.random() < 0.4:
+            e["dtype"] = dtp
+        return e
+    first = rng.choice(["csr", "csc", "coo", "lil", "bsr"])
     out.append(({"form": "listSparse", "sub": "rows",
-                 "ms": [{"nR": 1, "nC": m, "rows": [rows[i]], "layout": rng.choice(["csr", "csc", "coo", "lil"])}
-                        for i in range(n)]}, False))
+                 "ms": [sparse_row(i, first if i == 0 else rng.choice(LAYOUTS)) for i in range(n)]}, False))
     if n >= 2:
+        # every layout takes the first place in turn, each later row has a different one
+        k = rng.randrange(5)
+        firsts = ["csr", "csc", "coo", "lil", "bsr"]
+        for f in ([firsts[k], "csr"] if full else [rng.choice([firsts[k], "csr"])]):
+            others = [l for l in LAYOUTS if l != f]
+            off = rng.randrange(len(others))
+            out.append(({"form": "listSparse", "sub": "rows-mixed",
+                         "ms": [sparse_row(i, f if i == 0 else others[(i + off) % len(others)]) for i in range(n)]}, False))
         cut = sorted(rng.sample(range(1, n), rng.randint(1, min(2, n - 1))))
         blocks = [rows[a:b] for a, b in zip([0] + cut, cut + [n])]
+        bl = rng.sample(["csr", "csc", "coo", "lil", "bsr"], min(len(blocks), 5))
         out.append(({"form": "listSparse", "sub": "blocks",
-                     "ms": [{"nR": len(b), "nC": m, "rows": b, "layout": rng.choice(["csr", "csc", "coo"])}
-                            for b in blocks]}, False))
+                     "ms": [{"nR": len(b), "nC": m, "rows": b, "layout": bl[i % len(bl)]}
+                            for i, b in enumerate(blocks)]}, False))
+        rd = [row_dtype(i, rows[i]) or "float" for i in range(n)]
+        if len(set(rd)) > 1:
+            out.append(({"form": "listArr", "rows": rows, "row_dtypes": rd, "sub": "mixed-dtypes"}, False))
     # scipy layouts
     variants = [(lay, "plain") for lay in LAYOUTS] + [("csr", "unsorted"), ("csc", "unsorted"),
                                                        ("csr", "zeros"), ("csc", "zeros"), ("coo", "zeros"),
@@ -703,7 +762,8 @@ def _verdict(ctx, case, r, res, tags):
 
 def gen_adjacency(rng, odd, wide=False):
     obs_pool = ["a", "b", "c", "d", "B", "aa"] + (["é1", "o 1", "x/y", "日本", "Z", "10", "2", "a ", "a.", "A", "#a",
-                                                    "e\u0301", "a" * 30] if odd else [])
+                                                    "e\u0301", "a" * 30, "caf\u00e9", "cafe\u0301", "50%", "%(id)s",
+                                                    "\"quoted\" start", "{brace}", "back\\slash", "s1"] if odd else [])
     samp_pool = ["s1", "s2", "s3", "S1", "s10"] + (["µ", "t|u", "s 2", "#s", "s1 ", " s1", "s", "s1" * 12] if odd else [])
     no = rng.randint(1, 4)
     ns = rng.randint(1, 4)
@@ -818,7 +878,7 @@ def uc_cli(text, ftext):
                 os.remove(p)
 
 
-UC_SAMPLES = ["f1", "f2", "f3_a", "x", "S.1", "f1_b"]
+UC_SAMPLES = ["f1", "f2", "f3_a", "x", "S.1", "f1_b", "caf\u00e9", "cafe\u0301", "50%", "%(id)s", "\"q", "{b}", "f1_"]
 
 
 def gen_uc(rng, wide=False):
@@ -926,8 +986,9 @@ def gen_variant(rng, plain=0.45):
     profile that differs from the default one in the reaction to `empty` only (irrelevant for non-empty tables)"""
     if rng.random() < plain:
         return None
-    v = {"ids": rng.choice(["list", "tuple", "ndarray", "object"]), "md": rng.choice(["list", "tuple"]),
-         "md_kw": rng.random() < 0.3, "kw": rng.choice([0, 0, 1, 2]), "dense_false": rng.random() < 0.2}
+    v = {"ids": rng.choice(["list", "tuple", "ndarray", "object"]), "md": rng.choice(["list", "tuple", "ndarray"]),
+         "md_kw": rng.random() < 0.3, "kw": rng.choice([0, 0, 1, 2]), "dense_false": rng.random() < 0.2,
+         "all_kw": rng.random() < 0.15, "flag": rng.choice([None, "np", "int"]), "share": rng.random() < 0.5}
     if rng.random() < 0.3:
         v["profile"] = [["empty", rng.choice(EMPTY_REACTIONS)]]
     return v
@@ -937,8 +998,12 @@ def tricky_ids(rng, k, prefix):
     """distinct IDs that look alike: extensions, prefixes, case variants, blanks, trailing newline, combining
     characters, one much longer than the others (IDs live in fixed-width arrays)"""
     base = [prefix + x for x in ("a", "A", "a ", " a", "aa", "a\n", "a.", "é", "e\u0301", "a" * 40, "a\t", "ab", "b")]
+    # canonically equivalent spellings (NFC / NFD) are DISTINCT IDs; format characters, quotes, line separators
+    twins = [prefix + x for x in core.twin_ids(rng, 2)]
+    nasty = [prefix + x for x in rng.sample(core.NASTY_TEXTS, 4)] + [x for x in rng.sample(core.NASTY_TEXTS, 2)]
     pool = list(dict.fromkeys(base + core.tricky_unknown_ids(base[:3])))
     rng.shuffle(pool)
+    pool = list(dict.fromkeys(twins + nasty + pool)) if k >= 4 else pool
     out = pool[:k]
     i = 0
     while len(out) < k:
@@ -952,6 +1017,10 @@ def forms_group(ctx, rng, n, m, classes, full, with_md=True, alphabet="mixed", w
     G = gen_fraction_grid(rng, n, m, classes)
     if alphabet == "tricky":
         obs, samp = tricky_ids(rng, n, "O"), tricky_ids(rng, m, "S")
+    elif alphabet == "shared":
+        # the same names on both axes (the same list when the axes have equal length)
+        both = tricky_ids(rng, max(n, m), "X") if rng.random() < 0.5 else core.gen_ids(rng, max(n, m), "X")
+        obs, samp = both[:n], both[:m]
     elif wide:
         obs, samp = ["O%d" % i for i in range(n)], ["S%d" % i for i in range(m)]
         rng.shuffle(obs); rng.shuffle(samp)   # arguments in non-axis order
@@ -960,6 +1029,8 @@ def forms_group(ctx, rng, n, m, classes, full, with_md=True, alphabet="mixed", w
         samp = core.gen_ids(rng, m, "S", alphabet)
     omd = gen_good_md(rng, n) if with_md else None
     smd = gen_good_md(rng, m) if with_md else None
+    if with_md and n == m and rng.random() < 0.4:
+        smd = copy.deepcopy(omd)   # equal arguments; the `share` variant hands over ONE object for both
     tables = []
     encs = encodings(rng, G, exact, full)
     if wide:
@@ -1191,12 +1262,12 @@ def run(ctx):
         if g % 5 == 4:
             classes = ("smallcount",)   # grids of 0/1/2/3: bool and int dtypes apply often
         full = (g % 3 == 0) or not quick
-        alphabet = "tricky" if g % 6 == 5 else ("mixed" if g % 2 else "ascii")
+        alphabet = "tricky" if g % 6 == 5 else ("shared" if g % 6 == 2 else ("mixed" if g % 2 else "ascii"))
         G, obs, samp, encs = forms_group(ctx, rng, n, m, classes, full, alphabet=alphabet)
         kept.append((G, obs, samp, encs))
     # a few large cases (fast paths depending on sizes such as 64 IDs on an axis)
     for g in range(2 if quick else max(2, 48 // nw)):
-        wide_n = rng.choice([64, 70, 100, 130])
+        wide_n = rng.choice([64, 70, 100, 130]) if g else rng.choice([513, 520, 600])   # sizes above 512 too
         other = rng.choice([2, 3, 4])
         n, m = (other, wide_n) if g % 2 == 0 else (wide_n, other)
         G, obs, samp, encs = forms_group(ctx, rng, n, m, ("smallcount",) if g % 2 else ("count", "dyadic"), False,
